@@ -1,4 +1,5 @@
 import StamModel.Offset
+import StamModel.Lemmas.OffsetGen
 /-
   C04 — Offsets resolve to exactly the addressed code points, or are rejected.
 -/
@@ -220,5 +221,16 @@ example : resolveRes 5 ⟨.b 1, .e (-1)⟩ = .ok (1, 4) ∧ Denotes 5 ⟨.b 1, .
 example : resolveRes 5 ⟨.b 4, .b 2⟩ = .err "InvalidOffset" ∧ resolveRes 5 ⟨.e (-6), .b 2⟩ = .err "CursorOutOfBounds" := by decide
 example : resolveChain (0, 10) [⟨.b 2, .e (-1)⟩, ⟨.e (-3), .e 0⟩] = .ok (6, 9) := by decide
 example : reportRel .ee 2 9 4 7 = .ok (some ⟨.e (-5), .e (-2)⟩) := by decide
+
+/-! ### Tie to the source: cursor resolution is regenerated from the source on every run -/
+
+/-- **the model's cursor resolution is the source's**, inside a selection: `Stam.Gen.beginAlignedSel` is what the
+translator renders from `TextSelection::beginaligned_cursor` as it is in /repo now -/
+theorem source_cursor_in_selection_is_the_model (b e : Nat) (c : Cursor) :
+    Gen.beginAlignedSel b e c = beginAligned (e - b) c := gen_beginAlignedSel_agrees b e c
+
+/-- … and against a whole text: `Stam.Gen.beginAlignedText` is rendered from `Text::beginaligned_cursor` -/
+theorem source_cursor_in_text_is_the_model (len : Nat) (c : Cursor) :
+    Gen.beginAlignedText len c = beginAligned len c := gen_beginAlignedText_agrees len c
 
 end Stam.C04
